@@ -292,6 +292,31 @@ def teval(t: Term, env: dict):
         if not isinstance(v_, _pl.PurePath):
             raise Unknown(f"{op} of a non-path")
         return getattr(v_, op[5:])
+    if op == "lambda" and len(a) == 3:
+        names, body = a[1].v, a[2]
+
+        def _fn(*vals):
+            if len(vals) != len(names):
+                raise Unknown("lambda arity")
+            return teval(body, {**env, **{"lamparam:" + n_: v_ for n_, v_ in zip(names, vals)}})
+        return _fn
+    if op == "call" and a and not isinstance(a[0], Ref):
+        f_ = ev(a[0])
+        if callable(f_):
+            return f_(*[ev(x) for x in a[1:]])
+        raise Unknown("call of a non-function")
+    if op in ("bytes", "call:bytes") and len(a) == 1:
+        v_ = ev(a[0])
+        try:
+            if isinstance(v_, int) and not isinstance(v_, bool):
+                if v_ > 10_000_000:
+                    raise Unknown("bytes(n) too large")
+                return bytes(v_)
+            return bytes(v_)
+        except Unknown:
+            raise
+        except Exception as e:
+            raise Unknown(f"bytes: {e}")
     if op == "cbor" and len(a) == 1:
         from . import cbor_mini
         try:
